@@ -55,7 +55,7 @@ def validate(sid):
 
 
 if __name__ == "__main__":
-    ids = sys.argv[1:] or sorted(os.listdir(os.path.join(ROOT, "seeded")))
+    ids = sys.argv[1:] or sorted(x for x in os.listdir(os.path.join(ROOT, "seeded")) if os.path.isdir(os.path.join(ROOT, "seeded", x)))
     with ThreadPoolExecutor(max_workers=4) as ex:
         for r in ex.map(validate, ids):
             json.dump(r, open(os.path.join(ROOT, "seeded", r["id"], "validation.json"), "w"), indent=1)
